@@ -804,7 +804,8 @@ func TestVerif_C22(t *testing.T) {
 	r.Assume("mcrt shim semantics (litmus-tested); sync.Pool modelled as deterministic LIFO without scheduling points",
 		"queue capacity constant 2048 shrunk to 1-2 through mcrt.Param (backed by the full-scale directed witness); GOMAXPROCS pinned to 1: one stackless worker per wrapper",
 		"reference decoders: compress/gzip, compress/zlib, github.com/andybalholm/brotli, github.com/klauspost/compress/zstd; response parsing: net/http.ReadResponse",
-		"codec libraries (klauspost, andybalholm) are not rewritten: their internals run atomically between two scheduling points")
+		"codec libraries (klauspost, andybalholm) are not rewritten: their internals run atomically between two scheduling points",
+		"bytebufferpool (responseBodyPool) is not rewritten: its real sync.Pool is LIFO on the single P; it is drained at the start of every handler-load execution and the collector is paused while the execution runs, so that the buffer a Get returns depends on the schedule only")
 
 	if rp := r.Replay(); rp != nil {
 		var probe struct {
